@@ -1,4 +1,5 @@
 import MemcVerif.Proofs.Step
+import MemcVerif.Model.Policy
 /-!
 # C02 — CAS guards against lost updates
 
@@ -157,6 +158,53 @@ example : Lifetime [1] ⟨[([1], ⟨⟨0, 1, 0, 0⟩, [65]⟩)], 2⟩
   simp [Lifetime, ExcludedStep, applyOp, MemStore.set, Record.new, Meta.new, Mem.lookup, Mem.insert, Mem.erase,
     Op.key, Op.cas, MemStore.get, MemStore.getByKey, Record.expired]
 
+
+/-! ## under eviction policy random
+
+The property quantifies over both eviction policies. `RandomPolicy::set` evicts first and hands the store to the inner
+`set` afterwards, so what a conditional store is compared with is the item *as it survived this request's eviction*. -/
+
+/-- the eviction loop touches only its victims: an item that is not among them is stored afterwards exactly as before -/
+theorem evictLoop_lookup_of_not_victim (value : Nat) (tape : List Key) (p : Policy) (u : Nat) (k : Key) (hk : k ∉ tape) :
+    (Policy.evictLoop value tape p u).inner.mem.lookup k = p.inner.mem.lookup k := by
+  induction tape generalizing p u with
+  | nil => unfold Policy.evictLoop; split <;> (try split) <;> rfl
+  | cons v rest ih =>
+    unfold Policy.evictLoop
+    have hv : k ≠ v := fun h => hk (by simp [h])
+    have hr : k ∉ rest := fun h => hk (by simp [h])
+    by_cases hg : u > p.limit
+    · simp only [hg, if_true]
+      by_cases he : p.inner.len = 0
+      · simp [he]
+      · simp only [he, if_false]
+        cases hl : p.inner.mem.lookup v with
+        | none => rfl
+        | some r =>
+          simp only
+          rw [ih _ _ hr]; exact Mem.lookup_erase_ne _ hv
+    · simp [hg]
+
+/-- **CAS guards against lost updates under memory pressure too**: whatever the memory limit, the accounted usage and the
+    victims this request evicts, a store carrying a non-zero CAS that is not the current CAS of an item which is not one of
+    those victims is refused with 'key exists', and the item is left exactly as it was -/
+theorem C02_policy_stale_cas (p : Policy) (now : Nat) (k : Key) (r old : Record)
+    (hl : p.inner.mem.lookup k = some old) (hv : k ∉ p.tape)
+    (hc : r.header.cas ≠ 0) (hne : old.header.cas ≠ r.header.cas) :
+    (p.set now k r).2 = .error .keyExists ∧ (p.set now k r).1.inner.mem.lookup k = some old := by
+  have h1 : (p.incrMemUsage r.len).inner.mem.lookup k = some old := by
+    unfold Policy.incrMemUsage
+    rw [evictLoop_lookup_of_not_victim _ _ _ _ _ hv]; exact hl
+  unfold Policy.set
+  simp only
+  rw [MemStore.set_mismatch _ now k r old hc h1 hne]
+  exact ⟨rfl, h1⟩
+
+/-- non-vacuity: limit 60, an item of 25 bytes stored with CAS 1, a 50-byte store with the stale CAS 7 that evicts
+    nothing it addresses (empty victim tape) -/
+example : ((({ inner := ⟨[([1], ⟨⟨0, 1, 0, 0⟩, [65]⟩)], 2⟩, usage := 25, limit := 1000 } : Policy).set 0 [1]
+    (Record.new [66] 7 0 0)).2 matches .error .keyExists) = true := by decide
+
 end Memc
 
 #print axioms Memc.C02_set_cas_iff
@@ -167,3 +215,5 @@ end Memc
 #print axioms Memc.lifetime_inv
 #print axioms Memc.C02_cas_identifies_version
 #print axioms Memc.C02_unconditional_store_is_fresh
+#print axioms Memc.evictLoop_lookup_of_not_victim
+#print axioms Memc.C02_policy_stale_cas
